@@ -77,12 +77,16 @@ Judge(r) ==
       dom == IF done THEN "in" ELSE IF refok THEN "out" ELSE "none"
       \* attribution of a property failure to a named amoco deviation: the specification with exactly that
       \* deviation enabled reproduces what amoco reported
+      \* (for a string outside the claimed domain - the references agree on it but the table marks its prefix
+      \* column invalid - the lenient decoder is used, provided it reproduces the references' length)
+      base == IF done THEN d ELSE DecodeLenient(r.b, r.m, "none")
       Explains(D) ==
-        LET dd == DecodeDev(r.b, r.m, D) IN
+        LET dd == IF done THEN DecodeDev(r.b, r.m, D) ELSE DecodeLenient(r.b, r.m, D) IN
+        /\ base.st = "Done" /\ (r.live = 1 => base.pos = r.rl)
         /\ dd.st = "Done" /\ dd.pos = r.al
         /\ (prop = "Disp" => (dd.br /\ r.ab = 1 /\ SignExt(r.ad, r.as) = DispLimbs(r.b, dd)))
         \* ... and the deviation is what makes the difference on this string
-        /\ (~done \/ dd.pos # d.pos \/ (dd.br /\ DispLimbs(r.b, dd) # sd))
+        /\ (dd.pos # base.pos \/ (dd.br /\ base.br /\ DispLimbs(r.b, dd) # DispLimbs(r.b, base)))
       cands == IF prop = "ok" THEN <<>> ELSE SelectSeq(AmocoDevs, Explains)
       attr == IF Len(cands) > 0 THEN cands[1] ELSE "none"
   IN [t |-> r.t, bind |-> binding, prop |-> prop, dom |-> dom, st |-> d.st, attr |-> attr,
